@@ -82,8 +82,9 @@ def analyse_copy(prog, trynode, ctor_call, consts):
         if isinstance(stmt.value, ast.Call) and source_of(stmt.value) is not None:
             discarded.append((source_of(stmt.value), stmt.lineno))
 
-    helpers = {n.name: n for n in prog.module("cif.py").tree.body if isinstance(n, ast.FunctionDef)
-               and [a.arg for a in n.args.args] == ["atoms", "i"] and len(n.body) <= 14}
+    helpers = {n.name: n for n in prog.module("cif.py").tree.body if isinstance(n, ast.FunctionDef) and len(n.body) <= 14
+               and not (n.args.vararg or n.args.kwarg or n.args.kwonlyargs or n.args.defaults)
+               and not any(isinstance(x, (ast.For, ast.While, ast.With)) for x in ast.walk(n))}
     eng = Layout(doms, source_of, consts=consts, helpers=helpers)
     linevar = U(ctor_call.args[0])
     # statements up to the constructor call
@@ -293,13 +294,18 @@ def rule_flag(prog, rep):
     r = rep.rule("R6", "the input-format flag selects the reader by suffix and influences only header/TER/trailer output",
                  floor=4)
     gm = prog.func("io.py", "get_molecule").node
-    tests = [n for n in walk_no_defs(gm) if isinstance(n, ast.If) and any("read_cif" in U(c.func) for c in calls_in(n))]
-    ok = bool(tests) and U(tests[0].test).replace('"', "'") in ("path.suffix.lower() == '.cif'", "path.suffix.casefold() == '.cif'")
-    r.add("dispatch", ok, f"reader chosen by {U(tests[0].test) if tests else '<not found>'}",
-          f"pdb2pqr/io.py:{gm.lineno} (get_molecule)")
+    try:
+        dispatch_on_models(prog, r, gm)
+        modelled = True
+    except AnalysisError:
+        modelled = False
+        tests = [n for n in walk_no_defs(gm) if isinstance(n, ast.If) and any("read_cif" in U(c.func) for c in calls_in(n))]
+        ok = bool(tests) and U(tests[0].test).replace('"', "'") in ("path.suffix.lower() == '.cif'", "path.suffix.casefold() == '.cif'")
+        r.add("dispatch", ok, f"reader chosen by {U(tests[0].test) if tests else '<not found>'}",
+              f"pdb2pqr/io.py:{gm.lineno} (get_molecule)")
     # every load of is_cif
     for key, f in prog.funcs.items():
-        if f.module.rel == "run.py":
+        if f.module.rel == "run.py" or (modelled and f.node is gm):  # get_molecule: decided as a whole on the model paths
             continue
         for n in walk_no_defs(f.node):
             if isinstance(n, ast.Name) and n.id == "is_cif" and isinstance(n.ctx, ast.Load):
@@ -339,6 +345,56 @@ def rule_flag(prog, rep):
                             harmless = False
                     r.add(k, harmless, "controls only header construction, line writes or logging" if harmless else
                           "controls statements other than header construction / writes / logging", where)
+
+
+MODEL_PATHS = ["1abc.cif", "1ABC.CIF", "x.Cif", "1abc.pdb", "1ABC.PDB", "1abc.ent", "1abc", "cif", "dir.cif/1abc.pdb", "1abc.cif.pdb",
+               "1abc.pdb.cif", "cif.pdb", "1abc.mmcif"]
+
+
+def dispatch_on_models(prog, r, gm):
+    """get_molecule evaluated on model paths with the two readers replaced by distinguishable results: the records and the flag it returns
+    must be the CIF reader's exactly when the suffix is .cif in any letter case, whether or not the reader reported errors."""
+    from pathlib import PurePosixPath
+
+    from ..guards import Flow, Obj
+    from ..objinterp import ObjRunner
+    where = f"pdb2pqr/io.py:{gm.lineno} (get_molecule)"
+    for path in MODEL_PATHS:
+        for errs in ([], ["unparsed line"]):
+            used = []
+
+            def hook(run, interp, call, args, kw, errs=errs, used=used):
+                name = U(call.func)
+                if name in ("Path", "pathlib.Path", "PurePath") and len(args) == 1 and isinstance(args[0], str):
+                    p_ = PurePosixPath(args[0])
+                    return Obj({"__class__": "<path>", "suffix": p_.suffix, "name": p_.name, "stem": p_.stem, "suffixes": list(p_.suffixes),
+                                "__str__": args[0]})
+                if name == "str" and len(args) == 1 and isinstance(args[0], dict) and args[0].get("__class__") == "<path>":
+                    return args[0]["__str__"]
+                if name == "get_pdb_file":
+                    return Obj({"__class__": "<file>"})
+                if name.endswith(".close") and isinstance(args, list) and not args:
+                    return None
+                if name in ("cif.read_cif", "read_cif"):
+                    used.append("cif")
+                    return (["<records of the CIF reader>"], list(errs))
+                if name in ("pdb.read_pdb", "read_pdb"):
+                    used.append("pdb")
+                    return (["<records of the PDB reader>"], list(errs))
+                return NotImplemented
+
+            run = ObjRunner(prog, "io.py", extra_hook=hook)
+            try:
+                res = run.call_function("io.py", "get_molecule", path)
+            except Flow as fl:
+                r.bad(f"dispatch|{path}|{'errors' if errs else 'clean'}", f"get_molecule({path!r}) raises {fl.value}", where)
+                continue
+            want_cif = PurePosixPath(path).suffix.lower() == ".cif"
+            want = (["<records of the CIF reader>"], True) if want_cif else (["<records of the PDB reader>"], False)
+            got = (list(res[0]), res[1]) if isinstance(res, (tuple, list)) and len(res) == 2 else res
+            ok = got == want and used == ["cif" if want_cif else "pdb"]
+            r.add(f"dispatch|{path}|{'errors' if errs else 'clean'}", ok,
+                  f"get_molecule({path!r}) calls reader(s) {used} and returns {got!r}; expected {want!r}", where)
 
 
 def _stmt(node):
